@@ -113,11 +113,37 @@ def index_exprs(n):
 			for st in (None, 1, -1, 2, -2, 3, -3):
 				yield slice(a, b, st)
 	vals = list(range(-n, n))
-	for m in range(0, 3):
+	for m in range(0, 4):
 		for t in itertools.product(vals, repeat=m):
 			yield list(t)
+	for t in itertools.product(range(n), repeat=4):       # length 4, non-negative: permuted / repeated middles between fixed end points
+		yield list(t)
+		yield np.array(t, dtype=np.intp)
 	for t in itertools.product([False, True], repeat=n):
 		yield np.array(t, dtype=bool)
+
+
+def model_index(arrs, ks, ix):
+	"""What a plain Python list of the original arrays selects (independent of gambit's indexing code)."""
+	n = len(arrs)
+	dt = str(ks.index_dtype)
+	try:
+		if isinstance(ix, (int, np.integer)):
+			return ('item', dt, arrs[ix].tolist())
+		if isinstance(ix, slice):
+			pos = list(range(n))[ix]
+		elif isinstance(ix, np.ndarray) and ix.dtype == bool:
+			if len(ix) != n:
+				return ('raise', 'IndexError')
+			pos = [i for i, b in enumerate(ix.tolist()) if b]
+		else:
+			vals = [int(v) for v in (ix.tolist() if isinstance(ix, np.ndarray) else ix)]
+			if any(not -n <= v < n for v in vals):
+				return ('raise', 'IndexError')
+			pos = [v % n for v in vals]
+	except IndexError:
+		return ('raise', 'IndexError')
+	return ('coll', dt, repr(ks), [(dt, arrs[p].tolist()) for p in pos])
 
 
 def as_list(x):
@@ -176,10 +202,7 @@ def roundtrip(sh, v, d):
 		ref = SignatureArray(arrs, ks, dtype=ks.index_dtype)
 		for ix in index_exprs(n):
 			sh.evals += 1
-			try:
-				e = as_list(ref[ix])
-			except Exception as ex:
-				e = ('raise', type(ex).__name__)
+			e = model_index(arrs, ks, ix)
 			try:
 				g = as_list(loaded[ix])
 			except Exception as ex:
